@@ -2215,7 +2215,13 @@ impl GlobalInferenceCtx<'_> {
 
                             first_arm_ty.unwrap_or_else(|| Ty::Void.into())
                         }
-                        Expr::Local(local) => self.tys[self.loc].local_tys[*local],
+                        // (the definition of the local might not have been reached in a
+                        // syntactically broken body)
+                        Expr::Local(local) => self.tys[self.loc]
+                            .local_tys
+                            .get(*local)
+                            .copied()
+                            .unwrap_or_else(|| Ty::Unknown.into()),
                         Expr::SwitchArgument(switch_local) => 'switch_arg: {
                             if let Some(ty) = self.tys[self.loc].switch_local_tys.get(*switch_local)
                             {
@@ -5009,7 +5015,9 @@ impl GlobalInferenceCtx<'_> {
                         Expr::Comptime(comptime) => {
                             let hir::Comptime { body } = self.bodies[*comptime];
 
-                            let ty = self.tys[self.loc][body];
+                            // the body might not have been inferred yet
+                            // (e.g. in the type annotation of a global)
+                            let ty = self.infer_expr(body)?;
 
                             if *ty == Ty::Type {
                                 self.tys[self.loc].expr_tys.insert(expr, ty);
